@@ -314,7 +314,10 @@ func asmHistorySearch(depth int, variants []asmVariant, f func(v asmVariant, al 
 		rec = func(p []int, d int) {
 			sig, what, st, rep := f(j.v, al, p)
 			atomic.AddInt64(&histories, 1)
-			atomic.AddInt64(&transitions, int64(len(p)))
+			if st < 1 {
+				st = 1
+			}
+			atomic.AddInt64(&transitions, int64(len(p))*int64(st)) // every case replays the whole history on fresh objects
 			atomic.AddInt64(&states, int64(st))
 			if sig != "" {
 				h := asmHistory{Variant: j.v, Ops: historyNames(al, p), Capacity: capacity}
